@@ -1,7 +1,7 @@
 import os
 import core
 
-STREAMS = ["c13"]
+STREAMS = ["c13", "c18"]
 NEEDS_BINARY = True
 HARNESS_ARGS = ("-rdpgw", os.path.join(core.BUILD, "rdpgw"))
 RULE = ("the real rdpgw binary with each session store (cookie, file) against the scriptable IdP: every callback failure point "
@@ -18,6 +18,8 @@ ASSUMPTIONS = ["securecookie's MAC/encryption are unforgeable: a cookie is accep
 
 
 def nontrivial(c):
+    if c.kind in ("config", "keyshare"):
+        return True
     return c.kind == "cookiemut" or (c.kind == "oidc" and "b:" in c.fields[1])
 
 
